@@ -695,6 +695,34 @@ package client
 //@           len(state.Locked[old(len(state.Locked))].Bals) == len((*alloc).Balances) &&
 //@           forall a int :: 0 <= a && a < len((*alloc).Balances) ==> val(state.Locked[old(len(state.Locked))].Bals[a]) == bsum((*alloc).Balances[a])
 
+// Honest sub-channel withdrawal (the update this client proposes when its sub-channel is final): every participant's balance in the
+// parent grows by exactly its balance in the sub-channel (in place, on the clone that update() hands in), and the sub-channel's
+// sub-allocation is then removed. RemoveSubAlloc's in-place shifting append is a trusted frame.
+// distinct2D/disjoint2D: the balance objects of the cloned parent state are pairwise different objects and none of them is a
+// balance object of the sub-channel's state (the clone is fresh: C19).
+//@ pred distinct2D(P channel.Balances) = forall a, p, a2, p2 int :: 0 <= a && a < len(P) && 0 <= p && p < len(P[a]) && 0 <= a2 && a2 < len(P) && 0 <= p2 && p2 < len(P[a2]) && (a != a2 || p != p2) ==> P[a][p] != P[a2][p2]
+//@ pred disjoint2D(P channel.Balances, S channel.Balances) = forall a, p, a2, p2 int :: 0 <= a && a < len(P) && 0 <= p && p < len(P[a]) && 0 <= a2 && a2 < len(S) && 0 <= p2 && p2 < len(S[a2]) ==> P[a][p] != S[a2][p2]
+//@ func (*Channel).withdrawSubChannel$1
+//@   requires parentState != nil && chanWF(*sub) && *c != nil && (*c).client != nil && (*c).client.log != nil
+//@   requires nonNilBalances(parentState.Balances) && nonNilLocked(parentState.Locked) && sameDims(chanState(*sub).Balances, parentState.Balances)
+//@   requires distinct2D(parentState.Balances) && disjoint2D(parentState.Balances, chanState(*sub).Balances)
+//@   modifies *
+//@   panics true
+//@   callsite (*Allocation).RemoveSubAlloc : a == &parentState.Allocation && subAlloc.ID == mach(*sub).params.id
+//@   ensures result == nil && forall a, p int :: 0 <= a && a < len(old(parentState.Balances)) && 0 <= p && p < len(old(parentState.Balances)[a]) ==>
+//@           val(old(parentState.Balances)[a][p]) == old(val(parentState.Balances[a][p])) + old(val(chanState(*sub).Balances[a][p]))
+//@   loop 1
+//@     invariant forall x, p int :: 0 <= x && x < $i && 0 <= p && p < len(parentState.Balances[x]) ==> val(parentState.Balances[x][p]) == old(val(parentState.Balances[x][p])) + val(chanState(*sub).Balances[x][p])
+//@     invariant forall x, p int :: $i <= x && x < len(parentState.Balances) && 0 <= p && p < len(parentState.Balances[x]) ==> val(parentState.Balances[x][p]) == old(val(parentState.Balances[x][p]))
+//@     invariant forall x, p int :: 0 <= x && x < len(parentState.Balances) && 0 <= p && p < len(parentState.Balances[x]) ==> val(chanState(*sub).Balances[x][p]) == old(val(chanState(*sub).Balances[x][p]))
+//@   loop 2
+//@     invariant 0 <= a && a < len(parentState.Balances)
+//@     invariant forall x, p int :: 0 <= x && x < a && 0 <= p && p < len(parentState.Balances[x]) ==> val(parentState.Balances[x][p]) == old(val(parentState.Balances[x][p])) + val(chanState(*sub).Balances[x][p])
+//@     invariant forall p int :: 0 <= p && p < $i ==> val(parentState.Balances[a][p]) == old(val(parentState.Balances[a][p])) + val(chanState(*sub).Balances[a][p])
+//@     invariant forall p int :: $i <= p && p < len(parentState.Balances[a]) ==> val(parentState.Balances[a][p]) == old(val(parentState.Balances[a][p]))
+//@     invariant forall x, p int :: a < x && x < len(parentState.Balances) && 0 <= p && p < len(parentState.Balances[x]) ==> val(parentState.Balances[x][p]) == old(val(parentState.Balances[x][p]))
+//@     invariant forall x, p int :: 0 <= x && x < len(parentState.Balances) && 0 <= p && p < len(parentState.Balances[x]) ==> val(chanState(*sub).Balances[x][p]) == old(val(chanState(*sub).Balances[x][p]))
+
 // fundChannel: a ledger channel is funded with exactly the proposal's funding agreement (not, e.g., its initial balances); sub- and
 // virtual channels are funded through their parent with exactly this proposal and channel.
 //@ func (*Client).fundSubchannel
